@@ -369,9 +369,9 @@ def case_capacity_fn(ctx, rng, idx):
 
 
 GENS = {
-    "channel": Gen(case_channel, 700, 70000),
-    "solver": Gen(case_solver, 500, 50000),
-    "capacity-fn": Gen(case_capacity_fn, 200, 20000),
+    "channel": Gen(case_channel, 700, 300000),
+    "solver": Gen(case_solver, 500, 200000),
+    "capacity-fn": Gen(case_capacity_fn, 200, 100000),
 }
 MIN_EVALS = {"sinr-equals-first-principles": 2000,
              "jp-sinr-equals-first-principles": 2000,
